@@ -11,7 +11,7 @@ cmake -G Ninja -S $W -B $W/_build -DCMAKE_BUILD_TYPE=RelWithDebInfo -DCMAKE_CXX_
 ctest --test-dir $W/_build -j8 --timeout 900 >> $LOG 2>&1; SUITE=$?
 cp "$SRC/demo.cpp" $W/demo_seeded.cpp
 demo(){
-  if [ "${USE_BUILD_SCRIPT:-0}" = "1" ] && [ -f "$SRC/build_and_run.sh" ]; then (cd "$SRC" && timeout 1500 bash ./build_and_run.sh $W/_build $W >> $LOG 2>&1); return $?; fi
+  if [ "${USE_BUILD_SCRIPT:-0}" = "1" ] && [ -f "$SRC/build_and_run.sh" ]; then mkdir -p $W/out/mx && cp -r "$SRC"/. $W/out/mx/ && (cd $W/out/mx && timeout 1500 bash ./build_and_run.sh $W/_build $W >> $LOG 2>&1); return $?; fi # run from inside the worktree: some scripts take the (header-only) sources from ../..
   demo_plain; }
 demo_plain(){ g++ -std=c++17 -O1 -I$W/SparseGrids -I$W/DREAM -I$W/DREAM/Optimization -I$W/Addons -I$W/Config -I$W/_build/configured $W/demo_seeded.cpp -L$W/_build/SparseGrids -L$W/_build/DREAM -ltasmaniandream -ltasmaniansparsegrid -lpthread -Wl,-rpath,$W/_build/SparseGrids -Wl,-rpath,$W/_build/DREAM -o $W/demo_seeded >> $LOG 2>&1 && (cd $W && timeout 600 ./demo_seeded >> $LOG 2>&1); }
 demo; WITH=$?
